@@ -1,5 +1,6 @@
 //! Node-level scenario drivers: real `MainlineDht` nodes on the simulated network (DESIGN §5).
 
+use std::collections::HashMap;
 use crate::benc;
 use crate::sim::*;
 use crate::util::*;
@@ -44,6 +45,7 @@ pub fn run(o: &Opts) -> Res<()> {
             let full = o.num("full", 0) == 1;
             run_scenario(&out, seed, move |net| e2e(net, seed, nn, long, full))?
         }
+        "stale" => run_scenario(&out, seed, move |net| stale(net, seed))?,
         "flood" => {
             let corpus = o.req("corpus")?.to_owned();
             run_scenario(&out, seed, move |net| flood(net, seed, corpus))?
@@ -294,6 +296,82 @@ async fn server(net: Net, seed: u64, v6net: bool, read_only: bool, nq: u64, fat:
     api_contacts(&net, &dht, me).await;
     api_local_addr(&net, &dht, me).await;
     let _ = &mut tokens;
+    net.log(json!({"ev":"End"}));
+}
+
+
+/// C17 / C07 over a day: a swarm of 100 peers announces (one or two info-hashes), renews in another order, is replaced a day later
+/// by 100 other peers; the get_peers replies of the second day must carry the second swarm only (and fit a datagram).
+/// Recorded in projection mode (only the get_peers / announce_peer steps).
+async fn stale(net: Net, seed: u64) {
+    let mut rng = StdRng::seed_from_u64(seed);
+    let my_id = rand_id(&mut rng);
+    let nodes = oracle_universe(&mut rng, 3, false, None);
+    let oracle = Arc::new(Mutex::new(OracleNet::new(nodes)));
+    let addrs = oracle.lock().unwrap().addrs();
+    net.with(|nn| { nn.rec.projection = true; nn.faults.max_latency_ms = 20; });
+    net.log(json!({"ev":"Scenario","coop":false,"kind":"stale","projection":true}));
+    net.add_scripted(&addrs, Box::new(oracle.clone()));
+    let me: SocketAddr = v4(10, 0, 0, 1, 7000);
+    let dht = start_node(&net, &NodeCfg { addr: me, id: Some(my_id), read_only: false, announce_port: None, nodes: addrs.clone(), routers: vec![] });
+    if tokio::time::timeout(std::time::Duration::from_secs(1200), wait_bootstrapped(&net, &dht, me, 1)).await.is_err() {
+        net.log(json!({"ev":"End"}));
+        return;
+    }
+    let seen = Arc::new(Mutex::new(HashMap::<SocketAddr, Vec<u8>>::new()));
+    struct Tok(Arc<Mutex<HashMap<SocketAddr, Vec<u8>>>>);
+    impl Scripted for Tok {
+        fn on_datagram(&mut self, _: i64, d: &Dgram, _: &mut StdRng) -> Vec<(u64, SocketAddr, SocketAddr, Vec<u8>)> {
+            if let Some((m, _)) = benc::parse(&d.bytes) {
+                if let Some(tok) = m.get("r").and_then(|r| r.get("token")).and_then(|t| t.bytes()) {
+                    self.0.lock().unwrap().insert(d.dst, tok.to_vec());
+                }
+            }
+            vec![]
+        }
+    }
+    let swarm = |day: u8| -> Vec<SocketAddr> { (0..100u8).map(|i| v4(10, 20 + day, 0, i + 1, 5000 + i as u16)).collect() };
+    let (first, second) = (swarm(0), swarm(1));
+    let asker = v4(10, 7, 0, 9, 4000);
+    let mut all = first.clone();
+    all.extend(second.iter().copied());
+    all.push(asker);
+    net.add_scripted(&all, Box::new(Tok(seen.clone())));
+    let (ih_a, ih_b) = (rand_id(&mut rng), rand_id(&mut rng));
+    let two_hashes = seed % 2 == 1;
+    let tokens = |net: &Net, who: &[SocketAddr], rng: &mut StdRng, ih: &Id| {
+        for (i, p) in who.iter().enumerate() {
+            net.inject(*p, me, benc::q_get_peers(&[1, i as u8], &rand_id(rng), ih, None), 0);
+        }
+    };
+    let announce = |net: &Net, who: &[SocketAddr], rng: &mut StdRng, ih: &Id, tag: u8, seen: &Arc<Mutex<HashMap<SocketAddr, Vec<u8>>>>| {
+        for (i, p) in who.iter().enumerate() {
+            if let Some(tok) = seen.lock().unwrap().get(p).cloned() {
+                net.inject(*p, me, benc::q_announce(&[tag, i as u8], &rand_id(rng), ih, &tok, None, None), 0);
+            }
+        }
+    };
+    // day 1: the first swarm announces A (and B), then renews -- A in reverse order / only B
+    tokens(&net, &first, &mut rng, &ih_a);
+    sleep_ms(300).await;
+    announce(&net, &first, &mut rng, &ih_a, 2, &seen);
+    if two_hashes { announce(&net, &first, &mut rng, &ih_b, 3, &seen); }
+    sleep_ms(60_000).await;
+    let rev: Vec<SocketAddr> = first.iter().rev().copied().collect();
+    if two_hashes { announce(&net, &first, &mut rng, &ih_b, 4, &seen); } else { announce(&net, &rev, &mut rng, &ih_a, 4, &seen); }
+    sleep_ms(300).await;
+    net.inject(asker, me, benc::q_get_peers(b"d1", &rand_id(&mut rng), &ih_a, None), 0);
+    // a day later the second swarm announces A
+    sleep_ms(86_400_000 + 600_000).await;
+    tokens(&net, &second, &mut rng, &ih_a);
+    sleep_ms(300).await;
+    announce(&net, &second, &mut rng, &ih_a, 5, &seen);
+    sleep_ms(300).await;
+    for w in [None, Some("both")] {
+        net.inject(asker, me, benc::q_get_peers(b"d2", &rand_id(&mut rng), &ih_a, w), 0);
+    }
+    sleep_ms(2000).await;
+    api_state(&net, &dht, me).await;
     net.log(json!({"ev":"End"}));
 }
 
